@@ -10,6 +10,7 @@ from typing import List, Set
 from ..program import AnalysisError, FunctionInfo, fn_nodes, norm
 from ..cfg import cfg_of
 from ..spec import tables as T
+from .common import inconclusive_on_error as _ioe
 from .common import can_reach_exit, const_value, is_const, succ_by_label
 from .c05 import _resolve_local
 from .c11 import KEYS, fixed_width_ec
@@ -49,6 +50,7 @@ def _r13_1_shape(ctx, th) -> None:
               "fields = [required members] + ['kty']; thumbprint(self.dict_value, fields, digest)", construct="BaseKey.thumbprint field selection")
 
 
+@_ioe
 def _r13_1_folded(ctx, th) -> bool:
     """Decide the field selection by folding BaseKey.thumbprint for every key class with the call into rfc7638.thumbprint
     intercepted: whatever the spelling of the selection, the arguments handed over must be (the key's dict view, exactly the
@@ -116,6 +118,7 @@ def r13_1(ctx) -> None:
     ctx.check(dm == "sha256", "R13.1", None, None, "default digest", f"default digest is {dm!r}, RFC 7638 examples and the statement use SHA-256", "sha256", construct="default thumbprint digest")
 
 
+@_ioe
 def _r13_2_folded(ctx) -> bool:
     """Decide the thumbprint computation by folding rfc7638.thumbprint on probe JWKs (one with extra members, one bare; unsorted field
     lists, a non-default digest) with json.dumps / hashlib / base64 kept symbolic: the JSON input must be exactly the listed members
@@ -368,6 +371,8 @@ def r13_10(ctx) -> None:
 
 
 def run(ctx) -> None:
+    from .common import octet_length_lint as _oll
+    ctx.guard(_oll, "R13.11")  # thumbprint input members have the RFC length for every key size (ceil, not floor)
     from .common import forwarding_discipline
     ctx.guard(forwarding_discipline, "R13.9", ['auto_kid', 'parameters'], 14)  # arguments are handed on under their own name (generic routing rule, rules/common.py)
     ctx.guard(r13_8)
